@@ -94,6 +94,7 @@ type funcContract struct {
 	modAll   bool
 	hasMod   bool
 	inline   map[string]bool
+	concrete map[string]bool
 	loops    map[int]*loopSpec
 	sites    []*siteSpec
 	mayPanic bool
@@ -140,7 +141,7 @@ type pkgContracts struct {
 	text     string
 }
 
-var kwRe = regexp.MustCompile(`^(mode|rawfield|spec|pred|ufun|axiom|lemma|func|property|trusted|requires|ensures|deep|modifies|inline|loop|at|maypanic|panics-unless|seam|opaque|using|by|noframe|raw|noreturn|ghost|reads|guard)\b`)
+var kwRe = regexp.MustCompile(`^(mode|rawfield|spec|pred|ufun|axiom|lemma|func|property|trusted|requires|ensures|deep|modifies|inline|loop|at|maypanic|panics-unless|seam|opaque|using|by|noframe|raw|noreturn|ghost|reads|guard|concrete|rawtype)\b`)
 
 func loadContracts(dir, pkgPath string) (*pkgContracts, error) {
 	file := filepath.Join(dir, "zz_contracts_verif.go")
@@ -198,6 +199,8 @@ func loadContracts(dir, pkgPath string) (*pkgContracts, error) {
 			}
 		case "rawfield":
 			pc.rawField[rest] = true
+		case "rawtype":
+			pc.rawField["@type:"+strings.TrimSpace(rest)] = true
 		case "ghost":
 			fs := strings.SplitN(rest, " ", 2)
 			if len(fs) != 2 {
@@ -383,6 +386,13 @@ func (fc *funcContract) addClause(kw, rest string, line int) error {
 				return err
 			}
 			fc.modifies = append(fc.modifies, &clause{kind: "modifies", e: e, src: p, line: line})
+		}
+	case "concrete":
+		if fc.concrete == nil {
+			fc.concrete = map[string]bool{}
+		}
+		for _, p := range strings.Split(rest, ",") {
+			fc.concrete[strings.TrimSpace(p)] = true
 		}
 	case "inline":
 		if fc.inline == nil {
@@ -607,6 +617,11 @@ func parseFuncHeader(rest string) (*funcContract, error) {
 	if m := regexp.MustCompile(`([A-Za-z_][A-Za-z0-9_]*)((\$\d+)+)`).FindStringSubmatchIndex(src); m != nil {
 		clo = src[m[4]:m[5]]
 		src = src[:m[4]] + src[m[5]:]
+	}
+	// the callers' abstraction of a function: "Name~callers(params) (results)"
+	if m := regexp.MustCompile(`^((\([^)]*\)\s*)?[A-Za-z_][A-Za-z0-9_]*)~callers`).FindStringSubmatch(src); m != nil {
+		clo = "~callers"
+		src = m[1] + src[len(m[0]):]
 	}
 	// a function of another (standard library) package: "io.Copy(params) (results)"
 	ext := ""
